@@ -197,3 +197,14 @@ def chunks(seq, n):
             out.append(seq[i:i + sz])
         i += sz
     return out
+
+
+def pmap(fn, items, procs=16, chunk=200):
+    """map a pure, picklable-by-name function over items in forked worker processes
+    (the code under test is imported before the fork, so every worker runs /repo's tree)"""
+    import multiprocessing as mp
+    if len(items) < 400 or procs <= 1:
+        return [fn(x) for x in items]
+    ctxmp = mp.get_context("fork")
+    with ctxmp.Pool(procs) as pool:
+        return pool.map(fn, items, chunksize=chunk)
